@@ -375,7 +375,7 @@ func cmdCheck(args []string) {
 		ex.sampleSeed = seed
 		ex.maxWall = 10 * time.Minute
 		if tierN == 1 {
-			ex.maxWall = 90 * time.Minute
+			ex.maxWall = 40 * time.Minute
 		}
 		if hs.MaxWallS > 0 {
 			ex.maxWall = time.Duration(hs.MaxWallS) * time.Second
